@@ -309,6 +309,20 @@ def classes():
         def __len__(self):
             return len(self.buy_order_book) + len(self.sell_order_book)
 
+    class DrawingMarket(Market):
+        """a user-written market class that draws two attributes from the generator the runner gave it (the way
+        samples/market_share draws a trade volume in setup)."""
+
+        def __init__(self, market_id, prng, simulator, name, *args, **kwargs):
+            super().__init__(market_id, prng, simulator, name, *args, **kwargs)
+            self.my_generator = prng      # (the constructor argument, kept under a name of the user's own)
+
+        def setup(self, settings, *args, **kwargs):
+            super().setup(settings, *args, **kwargs)
+            self.lot_size = self.my_generator.randint(1, 10 ** 6)
+            self.opening_noise = self.my_generator.random()
+            taps.hits["user_market_class_drew_from_its_own_generator"] += 1
+
     class BatchRecordingLogger(Logger):
         """a logger that takes the records from the batches handed to process() (the documented place to control the
         sequence) and defines just one of the optional per-kind handlers."""
@@ -569,6 +583,7 @@ def classes():
         "FalsyRecordingLogger": FalsyRecordingLogger,
         "BatchRecordingLogger": BatchRecordingLogger,
         "DepthMarket": DepthMarket,
+        "DrawingMarket": DrawingMarket,
         "FalsyScriptAgent": FalsyScriptAgent,
         "ProbeEvent": ProbeEvent,
         "DerivedProbeEvent": DerivedProbeEvent,
@@ -685,7 +700,7 @@ def run_runner_case(case, sinks=(), with_logger=True, extra_classes=(), settings
                 for nm in ("ScriptAgent", "ScriptHFTAgent", "FalsyScriptAgent"):
                     cls[nm] = type(nm, (cls[nm],), {"submit_orders": lambda self, markets: []})
             for c in (cls["ScriptAgent"], cls["ScriptHFTAgent"], cls["ProbeEvent"], cls["DerivedProbeEvent"], cls["DepthMarket"],
-                      cls["FalsyScriptAgent"]) + tuple(v for k, v in cls.items() if k.startswith(("Retry", "Extending", "UserIndex"))) \
+                      cls["DrawingMarket"], cls["FalsyScriptAgent"]) + tuple(v for k, v in cls.items() if k.startswith(("Retry", "Extending", "UserIndex"))) \
                     + tuple(extra_classes):
                 runner.class_register(c)
             buf = io.StringIO()
@@ -1134,7 +1149,26 @@ def add_first_attempts(rng, cfg, p=0.15):
             v["firstAttempt"] = flawed_settings(rng, v)
             n += 1
     sprinkle_empty_event_lists(rng, cfg)
+    sprinkle_obsolete_keys(cfg)
     return n
+
+
+def sprinkle_obsolete_keys(cfg, p=0.3):
+    """obsolete keys that pams tolerates with a warning ("agent" of an order mistake shock, "referenceMarket" of the two
+    rules) beside the current ones - also on disabled events. Drawn from a generator of its own (seeded by the
+    configuration), so that the cases generated after this one stay what they were."""
+    import json
+    import zlib
+
+    side = random.Random(zlib.crc32(json.dumps(cfg, sort_keys=True, default=str).encode()))
+    markets = list(cfg["simulation"]["markets"])
+    for name, v in cfg.items():
+        if not isinstance(v, dict) or side.random() >= p:
+            continue
+        if v.get("class") == "OrderMistakeShock" and "agent" not in v:
+            v["agent"] = side.choice(list(cfg["simulation"]["agents"]) or ["nobody"])
+        elif v.get("class") in ("PriceLimitRule", "TradingHaltRule") and "referenceMarket" not in v:
+            v["referenceMarket"] = side.choice(markets)
 
 
 HOOK_TYPES = [("order", True), ("order", False), ("cancel", True), ("cancel", False), ("execution", False),
